@@ -43,6 +43,79 @@ def _patch_pn(h, cd_iter, bt_iter):
             m.MAX_CD_ITER, m.MAX_BACKTRACK_ITER = cd_iter, bt_iter
 
 
+class _AccStub:
+    """Method-level contract stub for AndersonAcceleration (symbolic runs only), pre-loaded to fire at a chosen
+    call: returns an ARBITRARY pair that is consistent w.r.t. the columns it was called with -- exactly what the
+    K-level obligation on the real ``extrapolate`` establishes (an affine combination, sum(c)=1, of stored
+    consistent iterates is consistent; the part of the model fit carried by coefficients outside the working
+    set is unchanged).  Every index is taken from the call arguments / the captured working set."""
+    fire_at = 1
+    seen = None
+    lin = None        # function (w_arg, second_arg, w_acc) -> consistent second component
+
+    def __init__(self, K=5):
+        self.calls = 0
+
+    def extrapolate(self, w, second):
+        from vf.sym import Ctx, SymReal
+        from vf import shim
+        self.calls += 1
+        if self.calls != _AccStub.fire_at:
+            return w, second, False
+        c = Ctx.cur
+        k = len(w)
+        w_acc = shim.sarr([SymReal(c.fresh("wacc")) for _ in range(k)])
+        c.event('extrapolated')
+        _AccStub.seen = dict(w_arg=[w[i] for i in range(k)], second=[second[i] for i in range(len(second))])
+        return w_acc, _AccStub.lin(w, second, w_acc), True
+
+
+def _install_acc_stub(h, cfg, Xc, fit_intercept, captured):
+    import skglm.solvers.anderson_cd as acd
+    import skglm.solvers.group_bcd as gbcd
+    import skglm.solvers.gram_cd as gcd
+    from vf import shim
+    n, p = Xc.shape
+    solver = cfg['solver']
+    _AccStub.fire_at = cfg['acc_stub']
+    _AccStub.seen = None
+    if solver == 'AndersonCD':
+        def lin(w_arg, Xw_arg, w_acc):
+            ws = captured['ws'][-(len(w_arg) - (1 if fit_intercept else 0)):]
+            out = []
+            for i in range(n):
+                v = Xw_arg[i]
+                for jj, j in enumerate(ws):
+                    if Xc[i, j] != 0:
+                        v = v + Xc[i, j] * (w_acc[jj] - w_arg[jj])
+                if fit_intercept:
+                    v = v + (w_acc[-1] - w_arg[-1])
+                out.append(v)
+            return shim.sarr(out)
+        acd.AndersonAcceleration = _AccStub
+    elif solver == 'GroupBCD':
+        def lin(w_arg, Xw_arg, w_acc):
+            out = []
+            for i in range(n):
+                v = Xw_arg[i]
+                for j in range(p):
+                    if Xc[i, j] != 0:
+                        v = v + Xc[i, j] * (w_acc[j] - w_arg[j])
+                if fit_intercept:
+                    v = v + (w_acc[-1] - w_arg[-1])
+                out.append(v)
+            return shim.sarr(out)
+        gbcd.AndersonAcceleration = _AccStub
+    elif solver == 'GramCD':
+        G = Xc.T @ Xc / n
+
+        def lin(w_arg, g_arg, w_acc):
+            return shim.sarr([g_arg[j] + sum(G[j, k] * (w_acc[k] - w_arg[k]) for k in range(p) if G[j, k] != 0)
+                              for j in range(p)])
+        gcd.AndersonAcceleration = _AccStub
+    _AccStub.lin = staticmethod(lin)
+
+
 GROUP_LAYOUTS = {'pair': [[0, 1]], 'rev': [[1], [0]], 'single': [[0], [1]], 'nc3': [[0, 2], [1]]}
 
 
@@ -86,7 +159,7 @@ def mk_datafit(h, name, n, ylabels=None):
         dm['sw'] = sw
         return h.datafit(Dm.WeightedQuadratic, sample_weights=sw), h.vec('y', n), dm
     if name == 'Huber':
-        dl = h.real('delta')
+        dl = h.constant(1.0)         # delta symbolic at kernel level (C06/C09); catalogue value at step/driver level
         h.assume(dl > 0)
         dm['delta'] = dl
         return h.datafit(Dm.Huber, delta=dl), h.vec('y', n), dm
@@ -119,6 +192,17 @@ def run_driver(h, cfg):
     import skglm.solvers as S
     solver_name = cfg['solver']
     Xc = X_of(cfg['X'])
+    if h.mode != 'sym' and h.unpatched and cfg.get('acc_stub') and getattr(h, 'rng', None) is not None:
+        # confirmation search with the real accelerator (K=5): extrapolation only matters on problems with more
+        # coordinates than the catalogue designs, so the search draws a larger correlated design
+        seed = int(float(h._val('design_seed'))) if 'design_seed' in h.values else int(h.rng.random() * 2 ** 31)
+        h.values['design_seed'] = seed
+        rs = np.random.RandomState(seed)
+        nn, pp = 10, 6
+        Xc = rs.randn(nn, pp)
+        for j in range(1, pp):
+            Xc[:, j] += rs.uniform(0, 3) * Xc[:, 0]
+        cfg = dict(cfg, p0=pp)
     n, p = Xc.shape
     fit_intercept = cfg.get('fit_intercept', False)
     R = Rec()
@@ -196,11 +280,17 @@ def run_driver(h, cfg):
     kw = dict(tol=tol)
     patched = False
     if solver_name == 'AndersonCD':
-        kw.update(max_iter=cfg['max_iter'], max_epochs=cfg['max_epochs'], p0=cfg.get('p0', 1),
+        me = cfg['max_epochs']
+        if (h.unpatched or (h.mode != 'sym' and cfg.get('acc_stub'))) and cfg.get('max_epochs_unpatched'):
+            me = cfg['max_epochs_unpatched']
+        kw.update(max_iter=cfg['max_iter'], max_epochs=me, p0=cfg.get('p0', 1),
                   ws_strategy=cfg.get('ws_strategy', 'subdiff'), fit_intercept=fit_intercept)
         solver = S.AndersonCD(**kw)
     elif solver_name == 'GramCD':
-        kw.update(max_iter=cfg['max_iter'], use_acc=cfg.get('use_acc', False), greedy_cd=cfg.get('greedy_cd', False),
+        mi = cfg['max_iter']
+        if (h.unpatched or h.mode != 'sym') and cfg.get('max_iter_unpatched'):
+            mi = cfg['max_iter_unpatched']
+        kw.update(max_iter=mi, use_acc=cfg.get('use_acc', False), greedy_cd=cfg.get('greedy_cd', False),
                   fit_intercept=False)
         solver = S.GramCD(**kw)
     elif solver_name == 'ProxNewton':
@@ -222,7 +312,19 @@ def run_driver(h, cfg):
         raise KeyError(solver_name)
     R.solver = solver
     # bounds on literal constants
-    if cfg.get('K') is not None and not h.unpatched:
+    captured = dict(ws=None)
+    orig_argpart = None
+    if cfg.get('acc_stub') and h.mode == 'sym':
+        from vf import shim as _shim
+        orig_argpart = _shim.npx.argpartition
+
+        def _cap(a, kth, *aa, **kk):
+            r = orig_argpart(a, kth, *aa, **kk)
+            captured['ws'] = r
+            return r
+        _shim.npx.argpartition = _cap
+        _install_acc_stub(h, cfg, Xc, fit_intercept, captured)
+    elif cfg.get('K') is not None and not h.unpatched:
         _patch_anderson(h, cfg['K'])
     else:
         _patch_anderson(h, None)
@@ -246,9 +348,14 @@ def run_driver(h, cfg):
             out = solver._solve(X, y, df, pen, w_init, Xw_init)
     finally:
         _patch_anderson(h, None)
+        if orig_argpart is not None:
+            from vf import shim as _shim
+            _shim.npx.argpartition = orig_argpart
         if solver_name in ('ProxNewton', 'GroupProxNewton'):
             _patch_pn(h, None, None)
     R.w, R.obj_out, R.stop_crit = out
+    R.acc_seen = _AccStub.seen if (cfg.get('acc_stub') and h.mode == 'sym') else None
+    R.ws_captured = captured['ws']
     R.w_init, R.Xw_init = w_init, Xw_init
     R.fit_intercept = fit_intercept
     return R
